@@ -29,6 +29,7 @@ type Prog struct {
 	Unresolved  []string // dynamic calls inside the repository that resolve to nothing known
 	extCache    map[*ssa.Function][]*ssa.Function
 	extSet      map[*ssa.Function]map[*ssa.Function]bool
+	boundSites  map[*ssa.Function][]*ssa.MakeClosure
 }
 
 // Site is one call/defer/go instruction that may invoke a function.
@@ -106,6 +107,15 @@ func FieldOwner(fa *ssa.FieldAddr) *types.Named {
 	}
 	n, _ := types.Unalias(t).(*types.Named)
 	return n
+}
+
+// FieldOwnerType is the struct type (named or not) whose field fa addresses.
+func FieldOwnerType(fa *ssa.FieldAddr) types.Type {
+	t := fa.X.Type()
+	if p, ok := t.Underlying().(*types.Pointer); ok {
+		t = p.Elem()
+	}
+	return t
 }
 
 // FieldStores lists every store to field v in the repository.
@@ -1239,12 +1249,14 @@ func CondAlternatives(c Cond, depth int) [][]Cond {
 			if k != c.Truth {
 				continue // this path yields the other value
 			}
-			// the path through pred's own branch
-			path := localConds(pred, b.Idom(), depth+1)
-			if own, ok := EdgeOwnCond(pred, b); ok {
-				path = append(path, normalizeAll([]Cond{own}, depth+1)...)
+			// the path(s) through pred's own branch (several when pred is itself a
+			// join: a flag set in the shared else of an if/else-if chain)
+			for _, path := range localAlts(pred, b.Idom(), depth+1) {
+				if own, ok := EdgeOwnCond(pred, b); ok {
+					path = append(path, normalizeAll([]Cond{own}, depth+1)...)
+				}
+				alts = append(alts, path)
 			}
-			alts = append(alts, path)
 			continue
 		}
 		// value edge: e evaluated in (a block dominating) pred, after the earlier operands went the other way
@@ -1257,6 +1269,55 @@ func CondAlternatives(c Cond, depth int) [][]Cond {
 		return [][]Cond{{c}}
 	}
 	return alts
+}
+
+// localAlts lists, per forward path from `above` to blk, the branch outcomes
+// taken on it; where blk is reached by a single chain of single-predecessor
+// blocks this is localConds.
+func localAlts(blk, above *ssa.BasicBlock, depth int) [][]Cond {
+	single := [][]Cond{localConds(blk, above, depth)}
+	if blk == nil || above == nil || depth > 5 {
+		return single
+	}
+	var walk func(b *ssa.BasicBlock, d int) ([][]Cond, bool)
+	walk = func(b *ssa.BasicBlock, d int) ([][]Cond, bool) {
+		if b == above {
+			return [][]Cond{{}}, true
+		}
+		if d > 12 || !above.Dominates(b) {
+			return nil, false
+		}
+		var out [][]Cond
+		n := 0
+		for _, p := range b.Preds {
+			if b.Dominates(p) {
+				continue // back edge
+			}
+			n++
+			sub, ok := walk(p, d+1)
+			if !ok {
+				return nil, false
+			}
+			for _, a := range sub {
+				alt := append([]Cond{}, a...)
+				if own, ok := EdgeOwnCond(p, b); ok {
+					alt = append(alt, normalizeAll([]Cond{own}, depth+1)...)
+				}
+				out = append(out, alt)
+			}
+			if len(out) > 32 {
+				return nil, false
+			}
+		}
+		if n == 0 {
+			return nil, false
+		}
+		return out, true
+	}
+	if out, ok := walk(blk, 0); ok && len(out) > 1 {
+		return out
+	}
+	return single
 }
 
 // localConds lists the branch outcomes that dominate blk but not `above`
@@ -1690,12 +1751,20 @@ func (p *Prog) Ext(f *ssa.Function) []*ssa.Function {
 				continue
 			}
 			sites := p.Callers(g)
-			if len(sites) == 0 {
+			bound := p.boundUses(g)
+			if len(sites) == 0 && len(bound) == 0 {
 				continue
 			}
 			all := true
 			for _, s := range sites {
 				if !in[s.Caller] {
+					all = false
+				}
+			}
+			// a method used as a bound method value (x.m handed to a callback taker) inside the
+			// set is as private to it as a function literal written there
+			for _, mc := range bound {
+				if !in[mc.Parent()] {
 					all = false
 				}
 			}
@@ -1714,6 +1783,30 @@ func (p *Prog) Ext(f *ssa.Function) []*ssa.Function {
 	p.extCache[f] = out
 	p.extSet[f] = in
 	return out
+}
+
+// boundUses lists the places where method g is turned into a bound method
+// value (the MakeClosure of its synthetic $bound wrapper).
+func (p *Prog) boundUses(g *ssa.Function) []*ssa.MakeClosure {
+	if p.boundSites == nil {
+		p.boundSites = map[*ssa.Function][]*ssa.MakeClosure{}
+		for _, f := range p.Funcs {
+			Instrs(f, func(ins ssa.Instruction) {
+				mc, ok := ins.(*ssa.MakeClosure)
+				if !ok {
+					return
+				}
+				fn, ok := mc.Fn.(*ssa.Function)
+				if !ok {
+					return
+				}
+				if u := unwrapBound(fn); u != fn {
+					p.boundSites[u] = append(p.boundSites[u], mc)
+				}
+			})
+		}
+	}
+	return p.boundSites[g]
 }
 
 // InExt reports whether g belongs to Ext(f).
@@ -2688,4 +2781,259 @@ func ResultFieldVals(g *ssa.Function, i, k int) (out []FieldVal, ok bool) {
 		}
 	}
 	return out, len(out) > 0
+}
+
+// GlobalTable reads a package-level table of records — `var T = [...]struct{…}{{a, b}, {c, d}}`
+// or the slice form — from the package initialiser: rows[i][k] is the value
+// written to field k of entry i (nil where the literal leaves the zero value).
+// ok is false unless the variable is assigned exactly once, in the initialiser,
+// from a composite literal, and nothing in the repository writes through it.
+func (p *Prog) GlobalTable(g *ssa.Global) (rows [][]ssa.Value, ok bool) {
+	if g == nil || g.Pkg == nil {
+		return nil, false
+	}
+	ini := g.Pkg.Func("init")
+	if ini == nil || len(p.globStores[g]) != 0 {
+		return nil, false
+	}
+	// nothing but whole-value loads of the variable, and no element store through a loaded slice
+	for _, f := range p.Funcs {
+		bad := false
+		Instrs(f, func(ins ssa.Instruction) {
+			for _, op := range ins.Operands(nil) {
+				if *op != ssa.Value(g) {
+					continue
+				}
+				ld, isLd := ins.(*ssa.UnOp)
+				if !isLd || ld.Op != token.MUL {
+					bad = true
+					continue
+				}
+				for _, ref := range *ld.Referrers() {
+					if ia, isIA := ref.(*ssa.IndexAddr); isIA {
+						for _, r2 := range *ia.Referrers() {
+							switch x := r2.(type) {
+							case *ssa.Store:
+								if x.Addr == ssa.Value(ia) {
+									bad = true
+								}
+							case *ssa.FieldAddr:
+								for _, r3 := range *x.Referrers() {
+									if st, isSt := r3.(*ssa.Store); isSt && st.Addr == ssa.Value(x) {
+										bad = true
+									}
+								}
+							}
+						}
+					}
+				}
+			}
+		})
+		if bad {
+			return nil, false
+		}
+	}
+	var init *ssa.Store
+	n := 0
+	Instrs(ini, func(ins ssa.Instruction) {
+		if st, isSt := ins.(*ssa.Store); isSt && st.Addr == ssa.Value(g) {
+			init = st
+			n++
+		}
+	})
+	var elems []*ssa.IndexAddr
+	var arr *types.Array
+	switch n {
+	case 0:
+		// an array variable initialised in place: &T[i].f = v
+		arr, _ = g.Type().Underlying().(*types.Pointer).Elem().Underlying().(*types.Array)
+		Instrs(ini, func(ins ssa.Instruction) {
+			if ia, isIA := ins.(*ssa.IndexAddr); isIA && ia.X == ssa.Value(g) {
+				elems = append(elems, ia)
+			}
+		})
+	case 1:
+		var backing *ssa.Alloc
+		switch v := init.Val.(type) {
+		case *ssa.UnOp:
+			backing, _ = v.X.(*ssa.Alloc)
+		case *ssa.Slice:
+			backing, _ = v.X.(*ssa.Alloc)
+		}
+		if backing == nil {
+			return nil, false
+		}
+		arr, _ = backing.Type().Underlying().(*types.Pointer).Elem().Underlying().(*types.Array)
+		for _, ref := range *backing.Referrers() {
+			if ia, isIA := ref.(*ssa.IndexAddr); isIA {
+				elems = append(elems, ia)
+			}
+		}
+	default:
+		return nil, false
+	}
+	if arr == nil || len(elems) == 0 {
+		return nil, false
+	}
+	st, isStruct := arr.Elem().Underlying().(*types.Struct)
+	if !isStruct {
+		return nil, false
+	}
+	rows = make([][]ssa.Value, arr.Len())
+	for i := range rows {
+		rows[i] = make([]ssa.Value, st.NumFields())
+	}
+	fieldStores := func(base ssa.Value, row []ssa.Value) bool {
+		for _, ref := range *base.Referrers() {
+			fa, isFA := ref.(*ssa.FieldAddr)
+			if !isFA {
+				continue
+			}
+			for _, r2 := range *fa.Referrers() {
+				if s2, isSt := r2.(*ssa.Store); isSt && s2.Addr == ssa.Value(fa) {
+					if row[fa.Field] != nil {
+						return false
+					}
+					row[fa.Field] = s2.Val
+				}
+			}
+		}
+		return true
+	}
+	for _, ia := range elems {
+		k, isK := ConstInt(ia.Index)
+		if !isK || k < 0 || int(k) >= len(rows) {
+			return nil, false
+		}
+		if !fieldStores(ia, rows[k]) {
+			return nil, false
+		}
+		for _, r2 := range *ia.Referrers() {
+			s2, isSt := r2.(*ssa.Store)
+			if !isSt || s2.Addr != ssa.Value(ia) {
+				continue
+			}
+			ld, isLd := s2.Val.(*ssa.UnOp)
+			if !isLd {
+				return nil, false
+			}
+			lit, isAl := ld.X.(*ssa.Alloc)
+			if !isAl || !fieldStores(lit, rows[k]) {
+				return nil, false
+			}
+		}
+	}
+	return rows, true
+}
+
+// TableLoop describes `for _, e := range T { … e.f … }` over a package-level
+// table T (see GlobalTable) inside f: Field reports which field of the current
+// entry a value is; Body and Done are the loop's body and exit blocks.
+type TableLoop struct {
+	Table *ssa.Global
+	Rows  [][]ssa.Value
+	Body  *ssa.BasicBlock
+	Done  *ssa.BasicBlock
+	elem  map[ssa.Value]bool
+}
+
+// Field reports whether v is field k of the entry the loop is looking at.
+func (t *TableLoop) Field(v ssa.Value) (int, bool) {
+	switch x := v.(type) {
+	case *ssa.Field:
+		if t.elem[x.X] {
+			return x.Field, true
+		}
+	case *ssa.UnOp:
+		if fa, ok := x.X.(*ssa.FieldAddr); ok && x.Op == token.MUL && t.elem[fa.X] {
+			return fa.Field, true
+		}
+	}
+	return 0, false
+}
+
+// IsIndexCond reports whether cd is the loop's own bound test.
+func (t *TableLoop) IsIndexCond(cd Cond) bool {
+	bo, ok := cd.V.(*ssa.BinOp)
+	if !ok {
+		return false
+	}
+	return bo.Block() != nil && len(bo.Block().Succs) == 2 && (bo.Block().Succs[0] == t.Body || bo.Block().Succs[1] == t.Body) && (bo.Block().Succs[0] == t.Done || bo.Block().Succs[1] == t.Done)
+}
+
+// FindTableLoop finds a range loop over a package-level table in f.
+func (p *Prog) FindTableLoop(f *ssa.Function) *TableLoop {
+	var out *TableLoop
+	Instrs(f, func(ins ssa.Instruction) {
+		if out != nil {
+			return
+		}
+		var base ssa.Value
+		var elemVal ssa.Value
+		switch x := ins.(type) {
+		case *ssa.Index: // array value
+			base, elemVal = x.X, x
+		case *ssa.IndexAddr: // slice, or pointer to array
+			base, elemVal = x.X, x
+		default:
+			return
+		}
+		ld, ok := base.(*ssa.UnOp)
+		if !ok || ld.Op != token.MUL {
+			return
+		}
+		g, ok := ld.X.(*ssa.Global)
+		if !ok {
+			return
+		}
+		rows, ok := p.GlobalTable(g)
+		if !ok {
+			return
+		}
+		body := ins.Block()
+		if len(body.Preds) != 1 {
+			return
+		}
+		hdr := body.Preds[0]
+		if len(hdr.Succs) != 2 {
+			return
+		}
+		done := hdr.Succs[0]
+		if done == body {
+			done = hdr.Succs[1]
+		}
+		t := &TableLoop{Table: g, Rows: rows, Body: body, Done: done, elem: map[ssa.Value]bool{elemVal: true}}
+		// the element copied into the range variable, or loaded through its address
+		for _, ref := range *elemVal.Referrers() {
+			switch y := ref.(type) {
+			case *ssa.Store:
+				if y.Val == elemVal {
+					if al, isAl := y.Addr.(*ssa.Alloc); isAl {
+						one := 0
+						for _, r2 := range *al.Referrers() {
+							if s2, isSt := r2.(*ssa.Store); isSt && s2.Addr == ssa.Value(al) {
+								one++
+							}
+						}
+						if one == 1 {
+							t.elem[al] = true
+						}
+					}
+				}
+			case *ssa.UnOp:
+				if y.Op == token.MUL {
+					t.elem[y] = true
+					for _, r2 := range *y.Referrers() {
+						if s2, isSt := r2.(*ssa.Store); isSt && s2.Val == ssa.Value(y) {
+							if al, isAl := s2.Addr.(*ssa.Alloc); isAl {
+								t.elem[al] = true
+							}
+						}
+					}
+				}
+			}
+		}
+		out = t
+	})
+	return out
 }
